@@ -1726,6 +1726,12 @@ func runC18AllRoots(c *Ctx) {
 	default:
 		c.bad(construct, fn.Pos(), "nil is returned at "+bad+" under a condition other than the end of the loop over the jobs: some graphs with a cycle (a single self-dependent job, for instance) get no diagnostic")
 	}
+	// the loop over the jobs is left before its end only with a cycle
+	if leaks := searchLoopLeaks(p, fn); len(leaks) == 0 {
+		c.ok("detectFirstCycle|every job tried as a root", fn.Pos(), "the loops are left before their end only by returning a cycle")
+	} else {
+		c.bad("detectFirstCycle|every job tried as a root", fn.Pos(), strings.Join(leaks, "; ")+": the jobs behind it are never searched, a cycle among them is missed")
+	}
 }
 
 func runC19DupAlways(c *Ctx) {
